@@ -864,4 +864,184 @@ theorem clearExcept_after_C (e : SEnv) (buf : List Rat) (hw : e.weight < buf.len
       · rw [if_neg h0, if_pos h]
       · rw [if_neg h0, if_neg h]; exact hz j hj (fun x => h x.symm) (fun x => h0 x.2.symm)
 
+/-! ## every call of the cross-sum callbacks in every run -/
+
+section grp
+variable (A : List Nat) (n : Nat) (sides : Nat)
+
+/-- the calls `beginCrossSum … endCrossSum` of one joint value of the neighbours: (new column, matched rule columns), in call order -/
+def overValuesG (nb jv : List Nat) (v : Nat) (factors : List LNode) (col : Nat) : Nat → Nat → List (Nat × List Nat)
+  | 0, _ => []
+  | cnt+1, k => (col, hits A (listOf n (jvAsg nb jv v k)) factors) :: overValuesG nb jv v factors col cnt (k+1)
+
+theorem overValues_eq_groups (nb jv : List Nat) (v : Nat) (factors : List LNode) (col : Nat) : ∀ (cnt k : Nat),
+    overValues A n sides nb jv v factors col cnt k
+      = (overValuesG A n nb jv v factors col cnt k).flatMap (fun g => veRows sides g.2 g.1)
+  | 0, _ => rfl
+  | cnt+1, k => by
+    simp only [overValues, overValuesG, List.flatMap_cons]
+    rw [overValues_eq_groups nb jv v factors col cnt (k+1)]
+
+theorem overValuesG_below (nb jv : List Nat) (v : Nat) (factors : List LNode) (col : Nat)
+    (hfH : ∀ c ∈ gCols factors, c < col) : ∀ (cnt k : Nat), ∀ g ∈ overValuesG A n nb jv v factors col cnt k, g.1 = col ∧ ∀ c ∈ g.2, c < g.1
+  | 0, _, g, hg => by simp [overValuesG] at hg
+  | cnt+1, k, g, hg => by
+    simp only [overValuesG, List.mem_cons] at hg
+    rcases hg with rfl | hg
+    · exact ⟨rfl, fun c hc => hfH c ((hits_sublist A _ factors).subset hc)⟩
+    · exact overValuesG_below nb jv v factors col hfH cnt (k+1) g hg
+
+/-- the groups of the `while (jointValues.isValid())` loop -/
+def removeLoopG (nb : List Nat) (v : Nat) (factors : List LNode) : Nat → Nat → GenSt → List (Nat × List Nat)
+  | 0, _, _ => []
+  | cnt+1, j, st => overValuesG A n nb (toFactors (sel nb A) j) v factors st.ncols (A.getD v 0) 0
+      ++ removeLoopG nb v factors cnt (j+1) (removeLoop A n sides nb v factors 1 j st)
+
+theorem removeLoop_one_rows (nb : List Nat) (v : Nat) (factors : List LNode) (j : Nat) (st : GenSt) :
+    (removeLoop A n sides nb v factors 1 j st).rows
+      = st.rows ++ overValues A n sides nb (toFactors (sel nb A) j) v factors st.ncols (A.getD v 0) 0 := by
+  rw [removeLoop_succ]
+  by_cases he : nb.isEmpty = true
+  · simp only [he, if_true, removeLoop]
+  · have he' : nb.isEmpty = false := by simpa using he
+    simp only [he', Bool.false_eq_true, if_false, removeLoop]
+
+theorem removeLoop_rows_groups (nb : List Nat) (v : Nat) (factors : List LNode) : ∀ (cnt j : Nat) (st : GenSt),
+    (removeLoop A n sides nb v factors cnt j st).rows
+      = st.rows ++ (removeLoopG A n sides nb v factors cnt j st).flatMap (fun g => veRows sides g.2 g.1)
+  | 0, _, st => by simp [removeLoop, removeLoopG]
+  | cnt+1, j, st => by
+    rw [removeLoop_one, removeLoop_rows_groups nb v factors cnt (j+1), removeLoop_one_rows, removeLoopG, List.flatMap_append,
+      overValues_eq_groups, List.append_assoc]
+
+theorem removeLoopG_below (nb : List Nat) (v : Nat) (factors : List LNode) : ∀ (cnt j : Nat) (st : GenSt),
+    (∀ c ∈ gCols factors, c < st.ncols) → ∀ g ∈ removeLoopG A n sides nb v factors cnt j st, st.ncols ≤ g.1 ∧ ∀ c ∈ g.2, c < g.1
+  | 0, _, _, _, g, hg => by simp [removeLoopG] at hg
+  | cnt+1, j, st, hfH, g, hg => by
+    simp only [removeLoopG, List.mem_append] at hg
+    rcases hg with hg | hg
+    · obtain ⟨h1, h2⟩ := overValuesG_below A n nb _ v factors st.ncols hfH _ 0 g hg
+      exact ⟨by omega, h2⟩
+    · have hc := (removeLoop_one_cols A n sides nb v factors j st).1
+      obtain ⟨h1, h2⟩ := removeLoopG_below nb v factors cnt (j+1) _ (fun c hc' => by have := hfH c hc'; omega) g hg
+      exact ⟨by omega, h2⟩
+
+/-- the groups of one `removeFactor` -/
+def removeVarG (v : Nat) (st : GenSt) : List (Nat × List Nat) :=
+  let factors := st.graph.filter (fun nd => nd.keys.contains v)
+  let nb := nbrs n v (st.graph.map (·.keys))
+  let g := if nb.isEmpty || st.graph.any (fun nd => nd.keys == nb) then st.graph else st.graph ++ [⟨nb, []⟩]
+  removeLoopG A n sides nb v factors (spacePartial nb A) 0 { st with graph := g }
+
+theorem removeVar_rows_groups (v : Nat) (st : GenSt) :
+    (removeVar A n sides v st).rows = st.rows ++ (removeVarG A n sides v st).flatMap (fun g => veRows sides g.2 g.1) := by
+  simp only [removeVar, removeVarG]
+  rw [removeLoop_rows_groups]
+
+theorem removeVarG_below (base : Nat) (v : Nat) (st : GenSt) (hn : NInv base sides st) (hs : 0 < sides) :
+    ∀ g ∈ removeVarG A n sides v st, st.ncols ≤ g.1 ∧ ∀ c ∈ g.2, c < g.1 := by
+  simp only [removeVarG]
+  refine removeLoopG_below A n sides _ v _ _ 0 _ ?_
+  intro c hc
+  have hsub := gCols_filter_sublist (fun nd => nd.keys.contains v) st.graph
+  have := hn.high c (List.mem_append.mpr (Or.inl (hsub.subset hc)))
+  simp only; omega
+
+/-- the groups of the whole elimination loop -/
+def genLoopG : Nat → List Nat → GenSt → List (Nat × List Nat)
+  | 0, _, _ => []
+  | _+1, [], _ => []
+  | fuel+1, x :: xs, st =>
+    let v := bestVar A n (x :: xs) (st.graph.map (·.keys))
+    removeVarG A n sides v st ++ genLoopG fuel ((x :: xs).filter (· != v)) (removeVar A n sides v st)
+
+theorem genLoop_rows_groups : ∀ (fuel : Nat) (active : List Nat) (st : GenSt),
+    (genLoop A n sides fuel active st).rows = st.rows ++ (genLoopG A n sides fuel active st).flatMap (fun g => veRows sides g.2 g.1)
+  | 0, _, st => by simp [genLoop, genLoopG]
+  | _+1, [], st => by simp [genLoop, genLoopG]
+  | fuel+1, x :: xs, st => by
+    simp only [genLoop, genLoopG]
+    rw [genLoop_rows_groups fuel, removeVar_rows_groups, List.flatMap_append, List.append_assoc]
+
+theorem genLoopG_below (base : Nat) (hs : 0 < sides) : ∀ (fuel : Nat) (active : List Nat) (st : GenSt),
+    base ≤ st.ncols → NInv base sides st → RClean st →
+    ∀ g ∈ genLoopG A n sides fuel active st, base ≤ g.1 ∧ ∀ c ∈ g.2, c < g.1
+  | 0, _, _, _, _, _, g, hg => by simp [genLoopG] at hg
+  | _+1, [], _, _, _, _, g, hg => by simp [genLoopG] at hg
+  | fuel+1, x :: xs, st, hb, hn, hr, g, hg => by
+    simp only [genLoopG, List.mem_append] at hg
+    rcases hg with hg | hg
+    · obtain ⟨h1, h2⟩ := removeVarG_below A n sides base _ st hn hs g hg
+      exact ⟨by omega, h2⟩
+    · obtain ⟨h1, h2⟩ := removeVar_clean A n sides base hs (bestVar A n (x :: xs) (st.graph.map (·.keys))) st hb hn hr
+      have hb' : base ≤ (removeVar A n sides (bestVar A n (x :: xs) (st.graph.map (·.keys))) st).ncols :=
+        le_trans hb (removeVar_ncols_ge A n sides _ st)
+      exact genLoopG_below base hs fuel _ _ hb' h1 h2 g hg
+
+end grp
+
+/-- the set-up state of FactoredLP satisfies the column invariant (all spaces, bases, targets) -/
+theorem flpSetup_ninv (C b : List Basis) (addConst : Bool) :
+    NInv (flpPhi C addConst + 1) 2 (flpSetup C b addConst) ∧ RClean (flpSetup C b addConst) ∧
+      flpPhi C addConst + 1 ≤ (flpSetup C b addConst).ncols := by
+  obtain ⟨phi, hphi⟩ : ∃ phi, phi = flpPhi C addConst := ⟨_, rfl⟩
+  have hphiC : C.length ≤ phi := by rw [hphi]; simp only [flpPhi]; omega
+  have init : NInv (phi + 1) 2 (⟨[], [], phi + 1, []⟩ : GenSt) :=
+    ⟨by simp [allCols, gCols], fun c hc => by simp [allCols, gCols] at hc, fun c hc => by simp [allCols, gCols] at hc⟩
+  have initr : RClean (⟨[], [], phi + 1, []⟩ : GenSt) := fun r hr => by simp at hr
+  have hmkC : ∀ k, k < C.length → MkClean (flpCRows addConst (phi - 1) (constCoeff C) k) (phi + 1) := by
+    intro k hk
+    by_cases hc : addConst = true
+    · have : phi = C.length + 1 := by rw [hphi]; simp [flpPhi, hc]
+      exact flpCRows_clean addConst (phi - 1) (constCoeff C) k (phi + 1) (by omega) (by omega) (by omega)
+    · have hc' : addConst = false := by simpa using hc
+      subst hc'
+      intro col q hb r hr
+      simp only [flpCRows, List.mem_cons, List.mem_nil_iff, or_false, List.append_nil, if_false, Bool.false_eq_true] at hr
+      rcases hr with rfl | rfl <;>
+        simp only [Clean, List.map_cons, List.map_nil, List.nodup_cons, List.mem_cons, List.mem_nil_iff, or_false,
+                   List.nodup_nil, and_true, not_false_eq_true] <;> omega
+  obtain ⟨n1, r1, b1⟩ := setupLoop_clean _ (phi + 1) C.length hmkC C 0 ⟨[], [], phi + 1, []⟩ (by omega) (le_refl _) init initr
+  obtain ⟨n2, r2, b2⟩ := setupLoop_clean (fun _ => flpBRows) (phi + 1) b.length (fun k _ => flpBRows_clean (phi + 1)) b 0 _ (by omega) b1 n1 r1
+  have hst0 : flpSetup C b addConst = setupLoop (fun _ => flpBRows) b 0
+      (setupLoop (flpCRows addConst (phi - 1) (constCoeff C)) C 0 ⟨[], [], phi + 1, []⟩) := by
+    simp only [flpSetup, hphi]
+    rw [flpSetupC_eq, flpSetupB_eq _ 0]
+  rw [← hphi, hst0]
+  exact ⟨n2, r2, b2⟩
+
+/-- **every cross-sum call of every FactoredLP run**: the LP is the set-up rows, then the rows of the groups in call order, then the
+    two final rows; in every group the matched rule columns lie below the new column, so (`flp_crossSumGroup_run`) the TRANSCRIBED
+    callbacks, started on a buffer of width `new column + 2` with any content, push the dense form of exactly that group's rows -/
+theorem flp_run_groups (S : List Nat) (C b : List Basis) (addConst : Bool) :
+    (flpGen S C b addConst).1 = (flpSetup C b addConst).rows
+        ++ (genLoopG S S.length 2 S.length (List.range S.length) (flpSetup C b addConst)).flatMap (fun g => veRows 2 g.2 g.1)
+        ++ flpFinalRows (flpPhi C addConst) (genRun S S.length 2 (flpSetup C b addConst)).finals ∧
+    ∀ g ∈ genLoopG S S.length 2 S.length (List.range S.length) (flpSetup C b addConst),
+      ∀ (buf : List Rat) (pushed : List (List Rat)), buf.length = g.1 + 2 →
+        (crossSumGroup AITB.Gen.flpCallbacks g.1 g.2 ⟨buf, pushed⟩).pushed = pushed ++ (veRows 2 g.2 g.1).map (denseRow (g.1 + 2)) := by
+  obtain ⟨hn, hr, hb⟩ := flpSetup_ninv C b addConst
+  constructor
+  · show (genRun S S.length 2 (flpSetup C b addConst)).rows ++ _ = _
+    simp only [genRun]
+    rw [genLoop_rows_groups]
+  · intro g hg buf pushed hw
+    obtain ⟨_, hlt⟩ := genLoopG_below S S.length 2 _ (by omega) _ _ _ hb hn hr g hg
+    exact flp_crossSumGroup_run g.1 g.2 hlt ⟨buf, pushed⟩ hw
+
+/-- the same for the factored-MDP LP (one column per new factor; `mdp_crossSumGroup` needs no hypothesis) -/
+theorem mdp_run_groups (joined : Bool) (S A : List Nat) (γ : Rat) (h : List Basis) (g R : List BasisM) :
+    (mdpGen joined S A γ h g R).1 = (mdpSetup S A γ h g R).rows
+        ++ (genLoopG (S ++ A) (S ++ A).length 1 (S ++ A).length (List.range (S ++ A).length) (mdpSetup S A γ h g R)).flatMap
+              (fun q => veRows 1 q.2 q.1)
+        ++ mdpFinalRows joined (genRun (S ++ A) (S ++ A).length 1 (mdpSetup S A γ h g R)).finals ∧
+    ∀ q ∈ genLoopG (S ++ A) (S ++ A).length 1 (S ++ A).length (List.range (S ++ A).length) (mdpSetup S A γ h g R),
+      ∀ (st : BSt), (crossSumGroup AITB.Gen.mdpCallbacks q.1 q.2 st).pushed = st.pushed ++ (veRows 1 q.2 q.1).map (denseRow st.buf.length) := by
+  constructor
+  · rw [mdpGen_rows]
+    simp only [genRun]
+    rw [genLoop_rows_groups]
+  · intro q _ st
+    exact (mdp_crossSumGroup q.1 q.2 st).1
+
 end AITB.FLP
